@@ -28,6 +28,26 @@ def run(ctx):
         f["kind"] = "predicate"
     r2["failures"] += fails
     r2["evaluations"] += fx.check_create_config.last["cases"]
+    # numbers in every spelling Python's float() reads and the validator therefore accepts (scientific notation with and
+    # without exponent sign, trailing point): the evaluator gives them their ordinary value, alone and inside an expression
+    # (implementation-only: the Coq lexer models plain decimal numbers)
+    from ioos_qc.config_creator import fx_parser
+    stats = {"min": 1.0, "max": 9.0, "mean": 4.0, "std": 2.0}
+    num_fail, num_n = [], 0
+    for tok in ("1e+2", "2.5E+3", "1.e+1", "1e16", "1e-2", "2.5E-1", "7.", "1E2", "3e+0"):
+        for expr, want in ((tok, float(tok)), (f"mean + {tok}", 4.0 + float(tok)), (f"( max - min ) / {tok}", 8.0 / float(tok))):
+            num_n += 1
+            try:
+                got = fx_parser.eval_fx(expr, stats)
+                ok = abs(float(got) - want) <= 1e-12 * max(1.0, abs(want))
+                shown = repr(float(got))
+            except Exception as e:  # noqa: BLE001
+                ok, shown = False, f"R:{type(e).__name__}"
+            if not ok:
+                num_fail.append({"kind": "predicate", "function": "eval_fx", "case": {"expr": expr, "stats": stats}, "impl": shown,
+                                 "spec": repr(want), "clause": "a number the validator accepts does not evaluate to its ordinary value"})
+    r1["failures"] += num_fail
+    r1["evaluations"] += num_n
     out = adapters.merge(
         [r1, r2],
         rule="eval_fx: HISTORIES on the real never-reset exprStack (well-formed expressions, failed parses, invalid "
